@@ -2,7 +2,7 @@
 import ast
 
 from .. import cfg, normalize, affinterp
-from ..core import AnalysisError, Func, norm, set_parents, walk_no_nested, mangle
+from ..core import AnalysisError, Func, norm, set_parents, walk_no_nested, mangle, clone as core_clone
 from ..flow import Aff, Facts, cmp_to_constraints
 
 META = {
@@ -279,19 +279,21 @@ def r3_header_table(rep, src):
         rep.ok('C06.R3', M + ':GLOBAL_HEADER_LENGTH', 'constant', norm(ghl), nontrivial=False)
     else:
         rep.fail('C06.R3', M + ':GLOBAL_HEADER_LENGTH', 'constant', 'GLOBAL_HEADER_LENGTH is not the length of the global header')
-    # roles of the slices of the header buffer
-    bufname = None
-    for st in f.node.body:
-        if isinstance(st, ast.Assign) and isinstance(st.value, ast.Call) and isinstance(st.value.func, ast.Attribute) \
-                and st.value.func.attr == 'read' and norm(st.value.func.value) == f.params()[0]:
-            bufname = norm(st.targets[0])
-            if [norm(a) for a in st.value.args] != ['FILE_HEADER_LENGTH'] and not (st.value.args and mod_fold(mod, st.value.args[0]) == 60):
-                rep.fail('C06.R3', f.site, 'header read length', 'the header is read with %s, not 60 bytes' % norm(st.value), where=f.where)
-            break
-    if bufname is None:
-        raise AnalysisError('%s: header read not found' % f.site)
-    roles = {}
-    local_role = {}
+    # the header fields, read off the successful paths of from_file (helpers inlined, locals substituted away): every attribute
+    # stored on the new member is an expression over the one header read; its cut is a slice of that buffer (literal bounds, a
+    # slice constant, or a field of a struct format)
+    from .. import paths
+    fpn = f.params()[0]
+    fnode, _inl = normalize.inline_helpers(f, depth=2)
+    folder = paths.Folder(paths.module_consts(mod, f.cls or ''))
+    ps = [p_ for p_ in paths.function_paths(fnode, folder) if p_.outcome[0] == 'return' and p_.outcome[1] is not None
+          and not (isinstance(p_.outcome[1], ast.Constant) and p_.outcome[1].value is None)]
+    if not ps:
+        raise AnalysisError('%s: no path returns a member' % f.site)
+    rep.analysed['paths'] += len(ps)
+
+    def is_header(e):
+        return isinstance(e, ast.Call) and isinstance(e.func, ast.Attribute) and e.func.attr == 'read' and norm(e.func.value) == fpn and len(e.args) == 1
 
     def struct_layout(fmt):
         """[(lo, hi)] of a struct format made of fixed-width byte fields (Ns) and pad bytes (Nx)"""
@@ -317,58 +319,89 @@ def r3_header_table(rep, src):
             return None
         return out
 
-    def unpack_layout(call):
-        """layout of `struct.unpack(fmt, buf)` / `S.unpack(buf)` / `S.unpack_from(buf)` applied to the header buffer"""
-        if not (isinstance(call, ast.Call) and isinstance(call.func, ast.Attribute) and call.func.attr in ('unpack', 'unpack_from')):
+    def cut_of(e):
+        """(lo, hi) when e is a cut of the header buffer"""
+        if isinstance(e, ast.Subscript) and is_header(e.value):
+            sl = e.slice
+            if isinstance(sl, ast.Slice) and sl.step is None:
+                lo, hi = mod_fold(mod, sl.lower) if sl.lower is not None else 0, mod_fold(mod, sl.upper)
+                return (lo, hi) if isinstance(lo, int) and isinstance(hi, int) else None
+            v = mod_fold(mod, sl)
+            if isinstance(v, slice) and v.step is None and isinstance(v.stop, int):
+                return (v.start or 0, v.stop)
             return None
-        base = call.func.value
-        if norm(base) == 'struct' and len(call.args) == 2 and norm(call.args[1]) == bufname:
-            return struct_layout(mod_fold(mod, call.args[0]))
-        if call.args and norm(call.args[0]) == bufname:
-            node = mod.const_nodes.get('', {}).get(norm(base)) if isinstance(base, ast.Name) else None
-            if node is None and isinstance(base, ast.Attribute) and isinstance(base.value, ast.Name):
-                node, _c = mod.class_const_node(f.cls, base.attr) if base.value.id in ('cls', 'self', f.cls) else (None, None)
-            if isinstance(node, ast.Call) and norm(node.func) in ('struct.Struct', 'Struct') and node.args:
-                return struct_layout(mod_fold(mod, node.args[0]))
+        # struct.unpack(fmt, H)[i] / S.unpack(H)[i] / S.unpack_from(H)[i]
+        if isinstance(e, ast.Subscript) and isinstance(e.slice, ast.Constant) and isinstance(e.slice.value, int) and isinstance(e.value, ast.Call) \
+                and isinstance(e.value.func, ast.Attribute) and e.value.func.attr in ('unpack', 'unpack_from'):
+            call = e.value
+            base = call.func.value
+            lay = None
+            if norm(base) == 'struct' and len(call.args) == 2 and is_header(call.args[1]):
+                lay = struct_layout(mod_fold(mod, call.args[0]))
+            elif call.args and is_header(call.args[0]):
+                node = mod.const_nodes.get('', {}).get(norm(base)) if isinstance(base, ast.Name) else None
+                if node is None and isinstance(base, ast.Attribute) and isinstance(base.value, ast.Name) and base.value.id in ('cls', 'self', f.cls):
+                    node, _c = mod.class_const_node(f.cls, base.attr)
+                if isinstance(node, ast.Call) and norm(node.func) in ('struct.Struct', 'Struct') and node.args:
+                    lay = struct_layout(mod_fold(mod, node.args[0]))
+            if lay is not None and 0 <= e.slice.value < len(lay):
+                return lay[e.slice.value]
         return None
 
-    for st in sorted([x for x in walk_no_nested(f.node) if isinstance(x, ast.stmt)], key=lambda x: x.lineno):
-        if isinstance(st, ast.Assign) and isinstance(st.targets[0], (ast.Tuple, ast.List)):
-            lay = unpack_layout(st.value)
-            if lay is not None and len(lay) == len(st.targets[0].elts):
-                for t, (lo, hi) in zip(st.targets[0].elts, lay):
-                    if isinstance(t, ast.Name):
-                        local_role[t.id] = (lo, hi, False)
-                continue
-        subs = [s for s in ast.walk(st) if isinstance(s, ast.Subscript) and norm(s.value) == bufname and isinstance(s.slice, ast.Slice)] \
-            if isinstance(st, (ast.Assign, ast.If, ast.Compare)) else []
-        if isinstance(st, ast.Assign) and subs:
-            tgt = st.targets[0]
-            lo, hi = mod_fold(mod, subs[0].slice.lower), mod_fold(mod, subs[0].slice.upper)
-            numeric = isinstance(st.value, ast.Call) and norm(st.value.func) == 'int'
-            if isinstance(tgt, ast.Attribute):
-                roles[tgt.attr.lstrip('_')] = (lo, hi, numeric)
-            elif isinstance(tgt, ast.Name):
-                local_role[tgt.id] = (lo, hi, numeric)
-        if isinstance(st, ast.Assign) and isinstance(st.targets[0], (ast.Attribute, ast.Name)) and not subs:
-            numeric = isinstance(st.value, ast.Call) and norm(st.value.func) == 'int'
-            for nm in [x.id for x in ast.walk(st.value) if isinstance(x, ast.Name)]:
-                if nm in local_role:
-                    lo, hi, num0 = local_role[nm]
-                    if isinstance(st.targets[0], ast.Attribute):
-                        roles[st.targets[0].attr.lstrip('_')] = (lo, hi, num0 or numeric)
-                    else:
-                        local_role[st.targets[0].id] = (lo, hi, num0 or numeric)
-        if isinstance(st, ast.If):
-            for cmpn in [c for c in ast.walk(st.test) if isinstance(c, ast.Compare)]:
-                if 'FILE_MAGIC' not in norm(cmpn) and not any(mod_fold(mod, x) == b'`\n' for x in [cmpn.left] + cmpn.comparators):
-                    continue
-                ss = [s for s in ast.walk(cmpn) if isinstance(s, ast.Subscript) and norm(s.value) == bufname and isinstance(s.slice, ast.Slice)]
-                if ss:
-                    roles['magic'] = (mod_fold(mod, ss[0].slice.lower), mod_fold(mod, ss[0].slice.upper), False)
-                for nm in [x.id for x in ast.walk(cmpn) if isinstance(x, ast.Name)]:
-                    if nm in local_role:
-                        roles['magic'] = local_role[nm]
+    def field_of(e):
+        """(lo, hi, numeric) of the single header cut an attribute value is computed from, through text-level wrappers"""
+        numeric = False
+        cuts = []
+        for x in ast.walk(e):
+            c = cut_of(x) if isinstance(x, ast.Subscript) else None
+            if c is not None:
+                cuts.append(c)
+            if isinstance(x, ast.Call) and norm(x.func) == 'int' and x.args and any(cut_of(y) is not None for y in ast.walk(x.args[0]) if isinstance(y, ast.Subscript)):
+                numeric = True
+        cuts = sorted(set(cuts))
+        return (cuts[0][0], cuts[0][1], numeric) if len(cuts) == 1 else None
+    per_path = []
+    window_ok = True
+    for p_ in ps:
+        roles = {}
+        stores = {}
+        full = {}
+
+        class Fwd(ast.NodeTransformer):
+            # a load of an attribute stored earlier on this path is the stored value
+            def visit_Attribute(self, n):
+                t = norm(n)
+                if t in full and isinstance(n.ctx, ast.Load):
+                    return full[t]
+                return self.generic_visit(n)
+        for ev in p_.events:
+            if ev[0] == 'store' and '.' in ev[1]:
+                v_ = Fwd().visit(core_clone(ev[2]))
+                full[ev[1]] = v_
+                stores[ev[1].rsplit('.', 1)[1]] = v_
+        for attr, v in stores.items():
+            fo = field_of(v)
+            if fo is not None and attr.lstrip('_') in AR5:
+                roles[attr.lstrip('_')] = fo
+        # the magic: a literal of the path compares a cut with FILE_MAGIC and holds for equality
+        for t_, pol in p_.conds:
+            if isinstance(t_, ast.Compare) and len(t_.ops) == 1 and isinstance(t_.ops[0], (ast.Eq, ast.NotEq)):
+                sides = [t_.left, t_.comparators[0]]
+                cs = [cut_of(x) for x in sides]
+                consts_ = [mod_fold(mod, x) for x in sides]
+                if any(c is not None for c in cs) and b'`\n' in consts_ and (pol == isinstance(t_.ops[0], ast.Eq)):
+                    c = next(c for c in cs if c is not None)
+                    roles['magic'] = (c[0], c[1], False)
+        per_path.append(roles)
+        # data window: offset = tell(), end = offset + size, cur = offset, all over the same position
+        off, end, cur, size = (stores.get(k) for k in ('__offset', '__end', '__cur', '__size'))
+        tell = '%s.tell()' % fpn
+        ok_w = off is not None and norm(off) == tell and cur is not None and norm(cur) == tell and size is not None and isinstance(end, ast.BinOp) \
+            and isinstance(end.op, ast.Add) and {norm(end.left), norm(end.right)} == {tell, norm(size)}
+        window_ok = window_ok and ok_w
+    roles = per_path[0]
+    if any(r != roles for r in per_path):
+        raise AnalysisError('%s: the header fields differ between the successful paths' % f.site)
     for role, (lo, hi) in AR5.items():
         got = roles.get(role)
         if got is None:
@@ -379,19 +412,16 @@ def r3_header_table(rep, src):
             rep.fail('C06.R3', f.site, 'header field ' + role, '%s is not converted with int()' % role, where=f.where)
         else:
             rep.ok('C06.R3', f.site, 'header field ' + role, '[%d:%d]%s' % (lo, hi, ' int()' if role in NUMERIC else ''))
-    # offsets
-    body = [norm(s) for s in f.node.body]
-    fpn = f.params()[0]
-    idx = {t: i for i, t in enumerate(body)}
-    need = ['f.__offset = %s.tell()' % fpn, 'f.__end = f.__offset + f.__size', 'f.__cur = f.__offset']
-    if all(x in idx for x in need) and idx[need[0]] < idx[need[1]]:
-        # no read/seek on fp between the header read and tell()
-        reads = [c for c in ast.walk(f.node) if isinstance(c, ast.Call) and isinstance(c.func, ast.Attribute) and norm(c.func.value) == fpn
-                 and c.func.attr in ('read', 'seek', 'readline')]
-        if len(reads) == 1:
-            rep.ok('C06.R3', f.site, 'data window', 'offset = tell() right after the header, end = offset + size, cur = offset')
-        else:
-            rep.fail('C06.R3', f.site, 'data window', 'the file is moved between the header read and tell()', where=f.where)
+    # offsets: no read/seek on fp between the header read and tell()
+    moves = [c for c in ast.walk(fnode) if isinstance(c, ast.Call) and isinstance(c.func, ast.Attribute) and norm(c.func.value) == fpn
+             and c.func.attr in ('read', 'seek', 'readline', 'readlines', 'read1', 'readinto')]
+    hdr_len = [c for c in moves if c.func.attr == 'read' and len(c.args) == 1 and mod_fold(mod, c.args[0]) == 60]
+    if len(hdr_len) != 1:
+        rep.fail('C06.R3', f.site, 'header read length', 'the header is not read as one block of 60 bytes', where=f.where)
+    if window_ok and len(moves) == 1:
+        rep.ok('C06.R3', f.site, 'data window', 'offset = tell() right after the header, end = offset + size, cur = offset')
+    elif window_ok:
+        rep.fail('C06.R3', f.site, 'data window', 'the file is moved between the header read and tell()', where=f.where)
     else:
         rep.fail('C06.R3', f.site, 'data window', 'offset/end/cur are not initialised as tell(), offset + size, offset', where=f.where)
     # public properties expose the matching private attribute
